@@ -4,6 +4,7 @@ import (
 	"github.com/libp2p/go-libp2p/core/crypto"
 
 	"berty.tech/weshnet/v2/pkg/protocoltypes"
+	"berty.tech/weshnet/v2/pkg/secretstore"
 )
 
 type verifC04Obs struct {
@@ -149,3 +150,79 @@ func VerifC04Witness() {
 }
 
 var _ crypto.PubKey
+
+// VerifC04Devices: the set-valued part of the state (members, devices, secrets sent) of a multi-member group: three
+// devices announce themselves -- two of them belong to the same member -- and the first sends its chain key to both
+// members; `steps` of these five operations are performed in a free order by the real store functions. A replica that
+// receives the entries in another arrival order, and one that receives a free subset first and the rest later, list the
+// same members and devices as the writer, and every announced device is listed under its member.
+func VerifC04Devices(steps, incremental, withSecrets int) {
+	ctx := verif_background()
+	sa := verifSecretStore("A1")
+	sa2 := verifSecretStore("A2")
+	ak, pk, err := sa.ExportAccountKeysForBackup()
+	verif_assume(err == nil)
+	verif_assume(sa2.ImportAccountKeys(ak, pk) == nil)
+	sb := verifSecretStore("B1")
+	g, _, err := protocoltypes.NewGroupMultiMember()
+	verif_assume(err == nil)
+	m := verifMetadataStore(sa, g)
+	mds := make([]secretstore.OwnMemberDevice, 3)
+	for i, s := range []secretstore.SecretStore{sa, sa2, sb} {
+		mds[i], err = s.GetOwnMemberDeviceForGroup(g)
+		verif_assume(err == nil)
+	}
+	var announced [3]bool
+	for i := 0; i < steps; i++ {
+		op := verif_anyInt("op")
+		verif_assume(op >= 0 && op <= 2+2*withSecrets)
+		switch {
+		case op <= 2:
+			verif_assume(!announced[op])
+			_, err := MetadataStoreAddDeviceToGroup(ctx, m, g, mds[op])
+			verif_assert(err == nil, "C04.dev: a device announcement is appended")
+			announced[op] = true
+		default:
+			_, err := m.SendSecret(ctx, mds[(op-3)*2].Member()) // to member A (op 3) or member B (op 4)
+			_ = err
+		}
+	}
+	writer := m.Index().(*metadataStoreIndex)
+	obs := func(idx *metadataStoreIndex) (nm, nd int, da [3]bool, ma [3]bool, sent [2]bool) {
+		nm, nd = len(idx.members), len(idx.devices)
+		for i := 0; i < 3; i++ {
+			draw, _ := mds[i].Device().Raw()
+			mraw, _ := mds[i].Member().Raw()
+			_, da[i] = idx.devices[string(draw)]
+			for _, d := range idx.members[string(mraw)] {
+				if d.Device().Equals(mds[i].Device()) {
+					ma[i] = true
+				}
+			}
+		}
+		for k := 0; k < 2; k++ {
+			mraw, _ := mds[k*2].Member().Raw()
+			_, sent[k] = idx.sentSecrets[string(mraw)]
+		}
+		return
+	}
+	wnm, wnd, wda, wma, wsent := obs(writer)
+	for i := 0; i < 3; i++ {
+		verif_assert(wda[i] == announced[i] && wma[i] == announced[i], "C04.dev: exactly the announced devices are listed, each under its member")
+	}
+	full := verif_logCopy(verif_storeLog(&m.BaseStore))
+	verif_logPermute(full)
+	replica := newMetadataIndex(ctx, g, mds[0], sa)(g.PublicKey).(*metadataStoreIndex)
+	verif_assert(replica.UpdateIndex(full, nil) == nil, "C04.dev: replica indexes the log")
+	rnm, rnd, rda, rma, rsent := obs(replica)
+	verif_assert(rnm == wnm && rnd == wnd && rda == wda && rma == wma && rsent == wsent, "C04.dev: replicas holding the same entries list the same members, devices and sent secrets whatever the arrival order")
+	if incremental == 1 {
+		part := verif_logView(full)
+		late := newMetadataIndex(ctx, g, mds[0], sa)(g.PublicKey).(*metadataStoreIndex)
+		verif_assert(late.UpdateIndex(part, nil) == nil, "C04.dev: replica indexes a partial view")
+		verif_assert(late.UpdateIndex(full, nil) == nil, "C04.dev: replica indexes the completed log")
+		lnm, lnd, lda, lma, lsent := obs(late)
+		verif_assert(lnm == wnm && lnd == wnd && lda == wda && lma == wma && lsent == wsent, "C04.dev.batches: a replica that received the entries in two batches lists the same members, devices and sent secrets")
+	}
+	verif_reach("C04.devices.ok")
+}
